@@ -80,9 +80,12 @@ def leaf(ctx, path, kind, shape, batch=None):
         t = torch.tril(t, -1) + torch.diag_embed(_randint(ctx, name + "d", full[:-1], 1, 3))
         if kind == "triu":
             t = t.mT.contiguous()
-    elif kind == "toep_psd":  # diagonally dominant first column
-        t = _randint(ctx, name, full, -1, 1)
-        t[..., 0] = 2 * (full[-1]) + 1
+    elif kind == "toep_psd":  # diagonally dominant first column; off-diagonals +-1, +-2, ... (distinct magnitudes keep the
+        # eigenvalues distinct: (7, 1, 1) has the spectrum 6, 6, 9, which starves Krylov methods)
+        nn = full[-1]
+        sign = _randint(ctx, name, full, 0, 1) * 2 - 1
+        t = sign * torch.arange(nn, dtype=ctx.dtype)
+        t[..., 0] = nn * (nn - 1) + 1
     elif kind == "real":
         t = torch.randn(full, generator=ctx.gen(name), dtype=torch.float64).to(ctx.dtype)
     else:
